@@ -506,6 +506,22 @@ def case_eq(ctx, cfg):
         r, e = ctx.call(lambda: C == D)
         if e is not None or bool(r):
             ctx.fail("eq:polyhedron:different", "==", {"other": "different height"}, False, e if e is not None else bool(r))
+            return
+        # same shape, different face SETS: face i replaced by a second copy of face j (one face missing, one repeated); ==
+        # must be false in BOTH orders, and such a polyhedron still equals itself with its faces listed in another order
+        C0 = G.Polyhedron(arr.copy())  # the same class on both sides: with a Cuboid on the right Python asks the subclass first
+        for i, j in itertools.permutations(range(6), 2):
+            a2 = arr.copy()
+            a2[i] = arr[j]
+            E = G.Polyhedron(a2)
+            E2 = G.Polyhedron(a2[::-1].copy())
+            ctx.state(("polyhedron-repeated-face", i, j))
+            for x, y, want, tag in ((C0, E, False, "full==repeated"), (E, C0, False, "repeated==full"), (C, E, False, "cuboid==repeated"), (E, C, False, "repeated==cuboid"), (E, E2, True, "repeated==itself-relisted"), (E2, E, True, "relisted==repeated")):
+                r, e = ctx.call(lambda: x == y)
+                ctx.trace()
+                if e is not None or bool(r) != want:
+                    ctx.fail(f"eq:polyhedron:{tag}", "==", {"replaced_face": i, "by_copy_of_face": j}, want, e if e is not None else bool(r))
+                    return
     else:
         sq = [(0, 0), (2, 0), (2, 2), (0, 2)]
         tri = [(0, 0), (4, 0), (0, 3)]
